@@ -30,14 +30,10 @@ theorem OneAdmL.keep {T M : Nat} {a b : Sys} (h : OneAdmL T M a.obs) (hk : ObsKe
   rw [e4, f4, e6, f6] at this
   exact this
 
-theorem nco_clCheck {c : Cluster} {d M : Nat} (h : c.checkIngestCapacity d M = true) :
-    d ≤ c.available.length := by
-  unfold Cluster.checkIngestCapacity at h
-  split at h
-  · cases h
-  · split at h
-    · rename_i h2; exact h2.1
-    · cases h
+-- F14: for any reservation counter `r`
+theorem nco_clCheck {c : Cluster} {d M : Nat} {r : Int} (h : c.checkIngestCapacity d M r = true) :
+    d ≤ c.available.length :=
+  (clCheckIngestCapacity_true c d M r h).1
 
 /-- the admission test, with what it establishes -/
 theorem nco_check (s : Sys) (o : Obs) (s1 : Sys) (b : Bool) (h : s.checkIngestCapacity o = .ok (s1, b)) :
